@@ -82,7 +82,7 @@ impl Monitor for M {
             ("roundtrip:values", f(8_000_000, (1u64 << 31) - 1)),
             ("roundtrip:fraction_digits=1", f(50, 10_000)),
             ("roundtrip:fraction_digits=5", f(4_000_000, 1 << 30)),
-            ("roundtrip:negative_values", f(4_000_000, 1 << 30)),
+            ("roundtrip:negative_values", f(4_000_000, (1 << 30) - 1)),
             ("fn:xn_over_d", f(100_000, 2_000_000)),
             ("fn:xn_over_d:overflow", f(1000, 20_000)),
             ("fn:nx_plus_y", f(100_000, 2_000_000)),
